@@ -74,3 +74,17 @@ package pipe
 //@   requires p != nil
 //@   frame closeWithError args
 //@   modifies *p
+
+// ---- C21: closing and breaking a pipe are recorded independently ----
+// closeWithError serves both CloseWithError (dst = &p.err) and BreakWithError (dst = &p.breakErr): the first
+// error given for a destination is recorded there, whatever the other destination holds.
+
+//@ func (*Pipe).closeWithError
+//@   props C21
+//@   requires p != nil && dst != nil && err != nil
+//@   frame * keeps *dst
+//@   note the mutex, the condition variable and closeDoneLocked are assumed not to write the error being recorded
+//@   modifies *
+//@   ensures[the_first_error_for_a_destination_is_recorded] old(*dst) == nil ==> *dst == err
+//@   ensures[a_recorded_error_other_than_eof_is_kept] old(*dst) != nil && old(*dst) != io.EOF ==> *dst == old(*dst)
+//@   ensures[a_recorded_eof_is_replaced] old(*dst) == io.EOF ==> *dst == err
